@@ -88,6 +88,8 @@ def random_state_vector(
         return np.divide(ret_vec, np.linalg.norm(ret_vec))
 
     # Schmidt rank is full, so ignore it.
+    # A list of local dimensions describes a vector on the tensor product of those spaces.
+    dim = int(np.prod(dim))
     ret_vec = gen.random((dim, 1))
     if not is_real:
         ret_vec = ret_vec + 1j * gen.random((dim, 1))
